@@ -319,8 +319,9 @@ end
 def outsideReason (env : Env) (file : AFile) (n : Nat) (G : List String) (closed : Bool) (st : St) (f : AFn) : Option String :=
   if closed && G.contains f.name then none
   else if !fileOK env file n then some "file:go-function-names-collide-or-reserved"
-  else if !(f.params.all (fun p => scalarTy p.2)) then some "signature:non-scalar-parameter"
-  else if !scalarTy f.ret then some "signature:non-scalar-result"
+  else if !(f.params.all (fun p => scalarTy p.2)) then
+    some ("signature:non-scalar-parameter:" ++ ((f.params.find? (fun p => !scalarTy p.2)).map (fun p => immReason.tyClass p.2)).getD "?")
+  else if !scalarTy f.ret then some ("signature:non-scalar-result:" ++ immReason.tyClass f.ret)
   else
     match reasonA env file G (paramCtx f) f.body with
     | some r => some r
